@@ -312,7 +312,8 @@ func (o *OperandPegImpl) CalcOffsetByteSize() int {
 				return 1
 			}
 			// Special case: [BP] in 16-bit mode uses ModRM mode 01 with disp8=0.
-			if o.bitMode == cpu.MODE_16BIT && memInfo.BaseReg == "BP" && memInfo.IndexReg == "" {
+			// (BP is a 16-bit address register: the same holds under 67h in 32-bit mode)
+			if memInfo.BaseReg == "BP" && memInfo.IndexReg == "" {
 				return 1 // disp8=0 for [BP]
 			}
 			// Other cases like [BX], [SI], [BX+SI] etc. need no offset bytes with ModRM mode 00.
@@ -333,7 +334,8 @@ func (o *OperandPegImpl) CalcOffsetByteSize() int {
 		// 8ビットに収まらない場合、アドレスサイズに応じて disp16 または disp32
 		// (16ビットモードでも EAX などの32ビットレジスタを使えば 67h 付きの32ビットアドレッシングで disp32)
 		addr32 := strings.HasPrefix(memInfo.BaseReg, "E") || strings.HasPrefix(memInfo.IndexReg, "E")
-		if o.bitMode == cpu.MODE_16BIT && !addr32 {
+		addr16 := is16BitAddrReg(memInfo.BaseReg) || is16BitAddrReg(memInfo.IndexReg)
+		if (o.bitMode == cpu.MODE_16BIT && !addr32) || addr16 {
 			// 16ビットアドレッシングでは、16ビットディスプレースメントを使用
 			return 2 // disp16
 		}
@@ -529,11 +531,17 @@ func (o *OperandPegImpl) IsType(index int, targetType OperandType) bool {
 // isR8Type と isR64Type も operand_util.go に追加しました。
 
 // CalcSibByteSize は、SIB バイトが必要な場合に 1 を、不要な場合に 0 を返します。
+// is16BitAddrReg reports whether r is a register of 16-bit addressing.
+func is16BitAddrReg(r string) bool {
+	return r == "BX" || r == "BP" || r == "SI" || r == "DI"
+}
+
 func (o *OperandPegImpl) CalcSibByteSize() int {
 	memInfo, found := o.GetMemoryInfo()
 	// 32ビットアドレッシング (32ビットモード、または16ビットモードで32ビットレジスタを使用) の場合のみ SIB の可能性を考慮
 	if found && memInfo != nil && (o.GetBitMode() == cpu.MODE_32BIT ||
-		strings.HasPrefix(memInfo.BaseReg, "E") || strings.HasPrefix(memInfo.IndexReg, "E")) {
+		strings.HasPrefix(memInfo.BaseReg, "E") || strings.HasPrefix(memInfo.IndexReg, "E")) &&
+		!is16BitAddrReg(memInfo.BaseReg) && !is16BitAddrReg(memInfo.IndexReg) {
 		// ModR/M rm=100 になる条件をチェック (calculateModRM のロジックを参考)
 		isDirectAddr := memInfo.BaseReg == "" && memInfo.IndexReg == ""
 		isEBPBasedNoIndex := memInfo.BaseReg == "EBP" && memInfo.IndexReg == ""
